@@ -77,12 +77,22 @@ theorem eq_of_strict_sorted_of_mem_iff : ∀ (l1 l2 : List Int),
 
 /-! ### the two passes -/
 
+/-- the tests the translator read from the counting loop of `buildInterface` are the documented ones -/
+theorem passesCount_eq : passesCount = passes := by
+  funext send S T x
+  cases send <;> simp [passesCount, passes, evalTest, Gen.countOuter, Gen.countInner]
+
+/-- … and so are the tests of the adding loop -/
+theorem passesAdd_eq : passesAdd = passes := by
+  funext send S T x
+  cases send <;> simp [passesAdd, passes, evalTest, Gen.addOuter, Gen.addInner]
+
 theorem countPass_eq (send : Bool) (S T : Nat → Bool) (l : List RIdx) :
     countPass send S T l = (l.filter (passes send S T)).length := by
   induction l with
   | nil => rfl
   | cons x xs ih =>
-    simp only [countPass, ih, List.filter_cons]
+    simp only [countPass, ih, List.filter_cons, passesCount_eq]
     split <;> simp <;> omega
 
 theorem addPass_eq (send : Bool) (S T : Nat → Bool) (l : List RIdx) (inf : Info) :
@@ -90,7 +100,7 @@ theorem addPass_eq (send : Bool) (S T : Nat → Bool) (l : List RIdx) (inf : Inf
   induction l generalizing inf with
   | nil => simp [addPass]
   | cons x xs ih =>
-    simp only [addPass, ih, List.filter_cons]
+    simp only [addPass, ih, List.filter_cons, passesAdd_eq]
     split <;> simp [Info.add]
 
 theorem infoOf_eq (send : Bool) (S T : Nat → Bool) (l : List RIdx) :
